@@ -4,6 +4,7 @@ import Uhppote.Gen.Types
 import Uhppote.Props.C12
 import Uhppote.Proofs.CodecNoPanic
 import Uhppote.Proofs.CodecImage
+import Uhppote.Proofs.CodecRoundTrip
 /-! # C18 — the codec is generic over message layouts
 
 Theorems about `Model.marshal` / `Model.unmarshal` for **every** layout that can be declared with
@@ -66,6 +67,38 @@ theorem C18_unmarshal_no_panic (L : Layout) (hwf : wf L.leaves = true) (bytes : 
   simp only [wf, Bool.and_eq_true] at hwf
   exact Proofs.Codec.unmarshal_no_panic _ _ L (fits_of_wf _ hwf.1.1.1) bytes
 
+/-- (ii) **decode ∘ encode = id**: for every well-formed layout, decoding what `Marshal` wrote
+    returns the encoded values — each in-domain value itself, except for the observational
+    equalities spelled out in `Spec.Codec.back` (IPv4 in Go's 16-byte form, a pointer to the zero
+    date/date-time as nil; header fields as the bytes their tags fix). `hh`: the protocol id the
+    layout's SOM field emits, if it has one, is one `Unmarshal` accepts (see `C18_header_ok`). -/
+theorem C18_round_trip (L : Layout) (vs ws : List Val) (img : Bytes)
+    (hwf : wf L.leaves = true) (himg : image L.leaves vs = some img)
+    (hback : backAll L.leaves vs = some ws) (hh : headerOk img = true) :
+    marshal Gen.codecFacts C12.genTables L vs = .ok img ∧
+    unmarshal Gen.codecFacts C12.genTables wireBounds L img = .ok ws := by
+  refine ⟨C18_marshal_image L vs img hwf himg, ?_⟩
+  rw [C18_facts, C12.C12_tables.1, C18_hhmm_bounds]
+  exact Proofs.Codec.unmarshal_image L vs ws img hwf himg hback hh
+
+/-- the header condition of (ii) holds for every layout without a SOM field (byte 0 is the preset
+    0x17) and for `SOM value:0x19` + `MsgType value:0x20` (the shape of the v6.62 event) -/
+theorem C18_header_ok (L : Layout) (vs : List Val) (img : Bytes) (hwf : wf L.leaves = true)
+    (himg : image L.leaves vs = some img) (hs : Proofs.Codec.hdrShape L.leaves = true) :
+    headerOk img = true :=
+  Proofs.Codec.headerOk_image L.leaves vs img hwf himg hs
+
+/-- (ii′) **distinct values never share an encoding**: two in-domain value tuples with the same
+    image decode to the same values, i.e. they are equal up to the observational equalities -/
+theorem C18_injective (L : Layout) (vs vs' ws ws' : List Val) (img : Bytes)
+    (hwf : wf L.leaves = true) (h1 : image L.leaves vs = some img) (h2 : image L.leaves vs' = some img)
+    (hb1 : backAll L.leaves vs = some ws) (hb2 : backAll L.leaves vs' = some ws')
+    (hh : headerOk img = true) : ws = ws' := by
+  have a := (C18_round_trip L vs ws img hwf h1 hb1 hh).2
+  have b := (C18_round_trip L vs' ws' img hwf h2 hb2 hh).2
+  rw [a] at b
+  injection b
+
 /-- (iv-a) value tags on encode: a decimal or hexadecimal `value:` tag is what is emitted — this
     is part of `image` (`leafWire` of a tagged SOM / MsgType / byte field is its tag value) -/
 theorem C18_tag_emitted (t : String) (n : Nat) (h : tagValue t = some n) (v : Val) (off : Nat) :
@@ -111,6 +144,9 @@ def exampleLayout : Layout :=
 
 example : wf exampleLayout.leaves = true := by decide
 example : (image exampleLayout.leaves [.u8 0, .u32 0x12345678, .u16 0xabcd]).isSome = true := by decide
+example : backAll exampleLayout.leaves [.u8 0, .u32 0x12345678, .u16 0xabcd]
+    = some [.u8 0x50, .u32 0x12345678, .u16 0xabcd] := by decide
+example : Proofs.Codec.hdrShape exampleLayout.leaves = true := by decide
 example : marshal Gen.codecFacts C12.genTables exampleLayout [.u8 0, .u32 0x12345678, .u16 0xabcd]
     = .ok ([0x17, 0x50, 0, 0, 0, 0, 0, 0, 0x78, 0x56, 0x34, 0x12] ++ zeros 50 ++ [0xcd, 0xab]) := by decide
 
